@@ -200,6 +200,7 @@ private def jAction : Action → Json
   | .raiseDefault => Json.str "raiseDefault"
   | .raiseUnhandled => Json.str "raiseUnhandled"
   | .raiseCatchAll => Json.str "raiseCatchAll"
+  | .retDefault => Json.str "retDefault"
 
 private def jStrategy : Strategy → Json
   | .none => Json.str "none"
